@@ -51,6 +51,14 @@ func genC11(t *tape.Tape, tier string) any {
 		cl.Body = []int{10, 3000, 40000, 200000}[t.Pick(3, 2, 2, 1)]
 		cl.K = 1 + t.Intn(40)
 		cl.StartMs = []int{0, 0, 50, 900}[t.Intn(4)]
+		if cl.Kind == "drip-reader" {
+			// the response must be able to finish inside the drain period even at drip speed
+			cl.Body = 2500 + t.Intn(8000)
+			cl.DelayMs = []int{0, 100, 2000}[t.Intn(3)]
+			if t.Chance(2, 3) {
+				c.Listener, c.Cap = "tls", []int{96, 2048, 300}[t.Intn(3)]
+			}
+		}
 		c.Clients = append(c.Clients, cl)
 	}
 	c.ShutdownMs = []int{0, 10, 500, 2000}[t.Pick(3, 2, 2, 1)]
